@@ -180,11 +180,13 @@ def pitch_instances(r):
     tm = np.arange(nfr) / 16.0
     rfr, efr = [], []
     for _ in range(nfr):
-        ms = [r.randrange(50 * 8, 80 * 8) / 8.0 for _ in range(r.choice([0, 1, 2, 3]))]
+        # integer-semitone reference pitches: with deviations from DEVS no cross
+        # pair inside a frame can sit exactly on the 0.5-semitone window
+        ms = [float(r.randrange(50, 80)) for _ in range(r.choice([0, 1, 2, 3]))]
         rfr.append(gen.midi_to_hz(ms) if ms else np.array([]))
         es = [mm + r.choice(DEVS[:-4] + [12, -12]) for mm in ms if r.random() < 0.8]
         if r.random() < 0.3:
-            es.append(r.randrange(50 * 8, 80 * 8) / 8.0 + 0.0625)
+            es.append(float(r.randrange(50, 80)) + 0.0625)
         efr.append(gen.midi_to_hz(es) if es else np.array([]))
     facm = r.choice([2.0, 0.5, 2.0 ** (1 / 12), 2.0 ** (-5 / 12)])
     ntp = ("mp", rfr, efr)
@@ -196,7 +198,8 @@ def pitch_instances(r):
                     (tm, rfr, tm.copy(), [f * om for f in efr]), {}, "estimate x %r" % om,
                     ntp + ("oct", om), only=[(i,) for i in range(7, 14)]))
     # ---- notes ----
-    iv, hz, vel = gen.notes(r, n=r.randrange(1, 9))
+    iv, _, vel = gen.notes(r, n=r.randrange(1, 9))
+    hz = gen.midi_to_hz([float(r.randrange(40, 90)) for _ in range(len(iv))])
     ehz = hz * np.array([2.0 ** (r.choice(DEVS) / 12.0) for _ in hz])
     eiv = iv + np.array([[r.choice([0, 1, -1, 2]) / Q] * 2 for _ in iv]).reshape(-1, 2)
     eiv = np.maximum(eiv, 0.0)
